@@ -86,7 +86,10 @@ MCSpec == MCInit /\ [][MCNext]_mcVars
 
 Bound == Len(hist) <= MaxReq
 
-View == <<httpVars, nver, Len(hist)>>
+(* nver is left out: two states that differ only in how many versions rejected
+   documents consumed have the same futures up to a monotone renaming of versions,
+   and no invariant depends on the numbers themselves. *)
+View == <<httpVars, Len(hist)>>
 
 -----------------------------------------------------------------------------
 
